@@ -492,7 +492,7 @@ theorem transitionDb_ok (env : Env) (s s1 : St) (tx : Tx) (vm : VmOut) (er : Exe
 theorem deliver_ok (env : Env) (s s' : St) (tx : Tx) (vm : VmOut) (r : Resp)
     (h : deliverOlvm env s tx vm = (s', r)) (hc : r.code = 0) :
     ∃ s1 er, validate env s.w tx = none ∧ transitionDb env s tx vm = some (s1, .ok er) ∧
-      er.usedGas ≠ 0 ∧ (er.usedGas : Int) ≤ tx.gas ∧
+      er.usedGas ≠ 0 ∧ (er.usedGas : Int) ≤ tx.gas ∧ er.usedGas < env.feeGasLeft ∧
       s' = ⟨{ (finalise s1).w with pool := (finalise s1).w.pool + tx.price * (er.usedGas : Int) }, []⟩ ∧
       r = ⟨0, er.usedGas, tx.gas, if er.failed then .reverted else .success⟩ := by
   unfold deliverOlvm at h
@@ -520,8 +520,11 @@ theorem deliver_ok (env : Env) (s s' : St) (tx : Tx) (vm : VmOut) (r : Resp)
           by_cases h2 : (er.usedGas : Int) > tx.gas
           · rw [if_pos h2] at h; simp only [Prod.mk.injEq] at h; rw [← h.2] at hc; simp at hc
           · rw [if_neg h2] at h
-            simp only [Prod.mk.injEq] at h
-            exact ⟨s1, er, rfl, rfl, h1, by omega, h.1.symm, h.2.symm⟩
+            by_cases h3 : env.feeGasLeft ≤ er.usedGas
+            · rw [if_pos h3] at h; simp only [Prod.mk.injEq] at h; rw [← h.2] at hc; simp at hc
+            · rw [if_neg h3] at h
+              simp only [Prod.mk.injEq] at h
+              exact ⟨s1, er, rfl, rfl, h1, by omega, by omega, h.1.symm, h.2.symm⟩
 
 /-- a refused transaction leaves the persisted records alone and the cache empty or untouched -/
 theorem deliver_refused (env : Env) (s s' : St) (tx : Tx) (vm : VmOut) (r : Resp)
@@ -551,8 +554,12 @@ theorem deliver_refused (env : Env) (s s' : St) (tx : Tx) (vm : VmOut) (r : Resp
           by_cases h2 : (er.usedGas : Int) > tx.gas
           · rw [if_pos h2] at h; simp only [Prod.mk.injEq] at h; exact Or.inr h.1.symm
           · rw [if_neg h2] at h
-            simp only [Prod.mk.injEq] at h
-            rw [← h.2] at hc; simp at hc
+            by_cases h3 : env.feeGasLeft ≤ er.usedGas
+            · rw [if_pos h3] at h; simp only [Prod.mk.injEq] at h; exact Or.inr h.1.symm
+            · rw [if_neg h3] at h
+              simp only [Prod.mk.injEq] at h
+              rw [← h.2] at hc; simp at hc
+
 /-! ## following one account through the pipeline -/
 
 /-- the cached object of `a`: balance `b`, nonce `n`, dirty, not suicided -/
@@ -1711,14 +1718,15 @@ theorem burntAt_zero_of_noSui (s : St) (hwf : WF s) (h : NoSui s) : burntAt s.ca
 
 theorem burnt_of_ok (env : Env) (s s1 : St) (tx : Tx) (vm : VmOut) (er : ExecResult)
     (hv : validate env s.w tx = none) (ht : transitionDb env s tx vm = some (s1, .ok er))
-    (hne : er.usedGas ≠ 0) (hle : (er.usedGas : Int) ≤ tx.gas) :
+    (hne : er.usedGas ≠ 0) (hle : (er.usedGas : Int) ≤ tx.gas) (hfee : er.usedGas < env.feeGasLeft) :
     burnt env s tx vm = burntAt s1.cache := by
   unfold burnt
   rw [hv, ht]
   simp only
-  have : ¬ (er.usedGas = 0 ∨ (er.usedGas : Int) > tx.gas) := by
-    intro h; rcases h with h | h
+  have : ¬ (er.usedGas = 0 ∨ (er.usedGas : Int) > tx.gas ∨ env.feeGasLeft ≤ er.usedGas) := by
+    intro h; rcases h with h | h | h
     · exact hne h
+    · omega
     · omega
   rw [if_neg this]
 
@@ -1747,7 +1755,10 @@ theorem burnt_of_refused (env : Env) (s s' : St) (tx : Tx) (vm : VmOut) (r : Res
           by_cases h2 : (er.usedGas : Int) > tx.gas
           · simp [h2]
           · rw [if_neg h2] at h
-            simp only [Prod.mk.injEq] at h
-            rw [← h.2] at hc; simp at hc
+            by_cases h3 : env.feeGasLeft ≤ er.usedGas
+            · simp [h3]
+            · rw [if_neg h3] at h
+              simp only [Prod.mk.injEq] at h
+              rw [← h.2] at hc; simp at hc
 
 end OLP.Olvm
